@@ -11,7 +11,7 @@ import itertools
 from vlib.mc import enum as E
 
 PROPERTY = 'C19'
-LEVEL = 'exploration'
+LEVEL = 'model_checking'
 ENGINE = 'C'
 TECHNIQUE = ('stateless bounded model checking: complete enumeration of path shapes x parameters and of '
              'item lists against reference split / quote-join functions')
